@@ -44,6 +44,7 @@ type mode struct {
 	backend bool // the backend itself answers with an error status
 	status  int
 	json    bool
+	pad     int // extra bytes in the backend's error body (large error pages / tracebacks)
 }
 
 func modes() []mode {
@@ -55,12 +56,26 @@ func modes() []mode {
 		ms = append(ms, mode{name: fmt.Sprintf("backend-%d-json", st), backend: true, status: st, json: true})
 		ms = append(ms, mode{name: fmt.Sprintf("backend-%d-text", st), backend: true, status: st, json: false})
 	}
+	for _, pad := range []int{12 << 10, 64 << 10} {
+		ms = append(ms, mode{name: fmt.Sprintf("backend-500-json-%dKiB", pad>>10), backend: true, status: 500, json: true, pad: pad})
+		ms = append(ms, mode{name: fmt.Sprintf("backend-503-text-%dKiB", pad>>10), backend: true, status: 503, json: false, pad: pad})
+	}
 	ms = append(ms, mode{name: "malformed-json-200"})
 	return ms
 }
 
 const backendErrJSON = `{"error":{"message":"backend says no","type":"invalid_request_error","code":"nope"}}`
 const backendErrText = "upstream exploded: <html>bad gateway</html>"
+
+func errBody(m mode) string {
+	if m.json {
+		if m.pad > 0 {
+			return `{"error":{"message":"backend says no","type":"invalid_request_error","code":"nope","traceback":"` + strings.Repeat("t", m.pad) + `"}}`
+		}
+		return backendErrJSON
+	}
+	return backendErrText + strings.Repeat("<p>x</p>", m.pad/8)
+}
 
 func reqBody(r route, model string, stream bool) []byte {
 	if r.anthropic {
@@ -212,9 +227,9 @@ func runConfig(engine string, rt route, k int) {
 				}
 			default:
 				if m.backend {
-					body, ct := backendErrJSON, "application/json"
+					body, ct := errBody(m), "application/json"
 					if !m.json {
-						body, ct = backendErrText, "text/html"
+						ct = "text/html"
 					}
 					for _, b := range bes {
 						b.SetFixed(stack.Behaviour{Kind: "respond", Status: m.status, Framing: "cl", Body: []byte(body), Cut: -1, After: "complete", Headers: [][2]string{{"Content-Type", ct}}})
@@ -272,10 +287,7 @@ func judge(engine string, rt route, k int, m mode, stream bool, r *stack.Resp, d
 			res.Violate("backend-status-not-preserved", wit(map[string]any{"stream": stream, "json_body": m.json}), det+fmt.Sprintf("\nbackend answered %d", m.status), rp)
 		}
 		if !rt.translated {
-			want := backendErrJSON
-			if !m.json {
-				want = backendErrText
-			}
+			want := errBody(m)
 			if r.Status == m.status && string(r.Body) != want {
 				res.Violate("backend-error-body-altered", wit(map[string]any{"json_body": m.json}), det, rp)
 			}
